@@ -92,8 +92,16 @@ func genBytes(r *rand.Rand, n int) []byte {
 var c19Lens = []int{1, 1, 2, 3, 4, 5, 6, 255, 256, 257}
 var c19BigLens = []int{65535, 65536, 65537, 70000}
 
+// every third item of a run takes the next length of a sweep 1, 2, 3, ... (wrapping at 1500): a
+// coincidence with some small buffer size (a scratch buffer, a block boundary) is met at every length
+var c19Sweep int
+
 func genItemLen(r *rand.Rand, allowBig bool) int {
 	x := r.Intn(100)
+	if r.Intn(3) == 0 {
+		c19Sweep = c19Sweep%1500 + 1
+		return c19Sweep
+	}
 	switch {
 	case x < 35:
 		return c19Lens[r.Intn(len(c19Lens))]
@@ -394,7 +402,7 @@ func init() {
 		}
 		defer os.RemoveAll(tmp)
 		sink := NewSink(a.out, "C19", "Tie.C19Tie", a.seed)
-		sink.meta.Rule = "generated item sequences (lengths incl. 1..6,255..257,65535..70000; bytes biased to 0x00/0xFF/prefix-like), damaged and v0 streams, KV pairs with related keys; non-trivial = roundtrip with >=2 items or an item >=255 bytes, read that decodes >=1 item, kv with non-empty key and value, every comparator/crc case; distinct by Coq term"
+		sink.meta.Rule = "generated item sequences (lengths incl. 1..6,255..257,65535..70000, every third item from a sweep 1,2,3,..,1500; bytes biased to 0x00/0xFF/prefix-like), damaged and v0 streams, KV pairs with related keys; non-trivial = roundtrip with >=2 items or an item >=255 bytes, read that decodes >=1 item, kv with non-empty key and value, every comparator/crc case; distinct by Coq term"
 		if a.replay != "" {
 			bs, err := os.ReadFile(a.replay)
 			if err != nil {
